@@ -94,7 +94,7 @@ def note_conf(ctx, tpath, tag, nrows, match_tracked=False):
 
 def coverage(rows):
     c = {"tx": 0, "tx_ok": 0, "relays": 0, "relays_acc": 0, "soft": 0, "hard": 0, "epoch": 0, "block": 0, "down": 0,
-         "badge_acc": 0, "capped": 0, "multi_ok": 0, "expired_mem": 0, "huge": 0, "huge_acc": 0}
+         "badge_acc": 0, "capped": 0, "multi_ok": 0, "expired_mem": 0, "huge": 0, "huge_acc": 0, "bigdown": 0, "late_claims": 0}
     for r in rows:
         ev = r["ev"]
         if ev == "pay":
@@ -118,6 +118,9 @@ def coverage(rows):
                         c["capped"] += 1
             if r["st"]["earliest"] > 0:
                 c["expired_mem"] += 1
+            # accepted relays of a finished epoch whose downtime factor is below the current epoch's
+            dfs = r["st"]["df"]
+            c["late_claims"] += sum(1 for x in r["rs"] if x["acc"] and 0 <= x["e"] < r["st"]["cur"] and dfs[x["e"]] < dfs[-1])
         elif ev in c:
             c[ev] += 1
     return c
